@@ -66,6 +66,9 @@ def def_sites(cfg: CFG, name: str) -> Dict[int, ast.AST]:
 
 def reaching(cfg: CFG, name: str) -> Tuple[Dict[int, Set[int]], Dict[int, ast.AST]]:
     """(IN sets: node -> def-node ids reaching its entry, def sites)."""
+    cache = cfg.__dict__.setdefault("_reach_cache", {})
+    if name in cache:
+        return cache[name]
     defs = def_sites(cfg, name)
     IN: Dict[int, Set[int]] = {n.id: set() for n in cfg.nodes}
     OUT: Dict[int, Set[int]] = {n.id: set() for n in cfg.nodes}
@@ -86,6 +89,7 @@ def reaching(cfg: CFG, name: str) -> Tuple[Dict[int, Set[int]], Dict[int, ast.AS
             seen_once.add(x)
             IN[x], OUT[x] = inn, out
             work.extend(node.succ)
+    cache[name] = (IN, defs)
     return IN, defs
 
 
